@@ -3,7 +3,8 @@
 import json, os, shutil, sys, re
 pid, k, detected = sys.argv[1], sys.argv[2], sys.argv[3]
 src = "/tmp/wt/%s/_out/m%s" % (pid, k)
-dst = "/verif/seeded/%s-m%s" % (pid, k)
+prop = pid[:3]
+dst = "/verif/seeded/%s-m%s" % (prop, k if pid == prop else str(int(k) + 2))
 os.makedirs(dst, exist_ok=True)
 for f in ("patch.diff", "demo.py"):
     shutil.copy(os.path.join(src, f), os.path.join(dst, f))
@@ -11,7 +12,7 @@ notes = open(os.path.join(src, "notes.md")).read() if os.path.exists(os.path.joi
 conf = open("/tmp/confirm_out/%s-m%s.txt" % (pid, k)).read()
 m = re.search(r"(\d+) failed, (\d+) passed", conf)
 meta = {
-    "property": pid,
+    "property": prop,
     "origin": "independent sub-agent given only the property text and a scratch worktree",
     "what_it_needs_to_manifest": notes.strip()[:1500],
     "confirmed_by_me": {
